@@ -443,6 +443,11 @@ pub fn gen_case(id: &str, rng: &mut Rng) -> Result<(Vec<u8>, Vec<Inj>, Vec<(u32,
                 if rng.chance(1, 3) {
                     let at = *rng.pick(&plain);
                     push(&mut plan, fid, at, Mode::Before, Probe::Host, rng);
+                    // 1 in 3: withdrawn again (a clear in a function that carries special probes must leave those alone)
+                    if rng.chance(1, 3) {
+                        let last = plan.last().cloned().unwrap();
+                        plan.push(Inj { mode: Mode::ClearBefore, path: if rng.bool() { Path::Iter } else { Path::Modifier }, ..last });
+                    }
                 }
             }
             "C18" | "C19" => {
@@ -456,6 +461,11 @@ pub fn gen_case(id: &str, rng: &mut Rng) -> Result<(Vec<u8>, Vec<Inj>, Vec<(u32,
                 if rng.chance(1, 3) {
                     let at = *rng.pick(&plain);
                     push(&mut plan, fid, at, Mode::Before, Probe::Host, rng);
+                    // 1 in 3: withdrawn again (a clear in a function that carries special probes must leave those alone)
+                    if rng.chance(1, 3) {
+                        let last = plan.last().cloned().unwrap();
+                        plan.push(Inj { mode: Mode::ClearBefore, path: if rng.bool() { Path::Iter } else { Path::Modifier }, ..last });
+                    }
                 }
             }
             _ => {
@@ -472,6 +482,11 @@ pub fn gen_case(id: &str, rng: &mut Rng) -> Result<(Vec<u8>, Vec<Inj>, Vec<(u32,
                 if rng.chance(1, 3) {
                     let at = *rng.pick(&plain);
                     push(&mut plan, fid, at, Mode::Before, Probe::Host, rng);
+                    // 1 in 3: withdrawn again (a clear in a function that carries special probes must leave those alone)
+                    if rng.chance(1, 3) {
+                        let last = plan.last().cloned().unwrap();
+                        plan.push(Inj { mode: Mode::ClearBefore, path: if rng.bool() { Path::Iter } else { Path::Modifier }, ..last });
+                    }
                 }
             }
         }
